@@ -64,6 +64,9 @@ def antimeridianX (xs : List Rat) (shift : Rat) : Rat × Rat :=
   let ws := xs.map wrap360
   (minL ws - shift, maxL ws - shift)
 
+/-- longitudes with missing navigation (NaN = `none`): `np.nanmin / np.nanmax` of `lons % 360` -/
+def antimeridianXN (xs : List (Option Rat)) (shift : Rat) : Rat × Rat := antimeridianX (xs.filterMap id) shift
+
 /-! ### driver -/
 open Wire
 
@@ -109,9 +112,10 @@ def handle : List String → Option String
     | _ => none
   | "anti" :: shift :: rest => do
     let shift ← rat? shift
-    let (xs, tl) ← takeList rat? rest
-    if tl ≠ [] ∨ xs = [] then none else
-    let r := antimeridianX xs shift
+    -- anti <shift> <n> lon…   (a longitude is a rational or `nan`)
+    let (xs, tl) ← takeList (fun t => if t = "nan" then some (none : Option Rat) else (rat? t).map some) rest
+    if tl ≠ [] ∨ xs.filterMap id = [] then none else
+    let r := antimeridianXN xs shift
     some (showRat r.1 ++ " " ++ showRat r.2)
   | _ => none
 
